@@ -240,6 +240,21 @@ func scnStaking(ctx *check.JobCtx) {
 			}
 		}
 		w.Case("c20:cursor-recipe:supers-at-end=%d", supers)
+		// a super node re-declares a validator it has no stake in, with a reset that carries no status
+		op := valOps[0]
+		if e := w.Deliver("create-validator", op, nil, createValidatorMsg(op, 150_000_000)); e.OK {
+			vals = append(vals, sdk.ValAddress(op.Addr))
+			w.EndBlock()
+			for _, n := range nodes[:2] {
+				w.ResetNode(n, 0, nil, sdk.ValAddress(op.Addr).String())
+			}
+			w.EndBlock()
+			// and back, with the full status again
+			for _, n := range nodes[:2] {
+				w.ResetNode(n, world.StatusAll, nil, v0.String())
+			}
+			w.EndBlock()
+		}
 	}
 	ops := int(ctx.ArgInt("ops", 150))
 	amounts := []int64{1, 1_000_000, 9_000_000, 11_111_111, 25_000_000, 120_000_000, 400_000_000, 5_000_000_000}
@@ -290,6 +305,9 @@ func scnStaking(ctx *check.JobCtx) {
 		case 7:
 			if len(vals) < 3 {
 				op := valOps[len(vals)-1]
+				if _, exists := w.C.App.StakingKeeper.GetValidator(w.C.Ctx(), sdk.ValAddress(op.Addr)); exists {
+					op = valOps[1]
+				}
 				if e := w.Deliver("create-validator", op, nil, createValidatorMsg(op, []int64{50_000_000, 150_000_000}[r.Intn(2)])); e.OK {
 					vals = append(vals, sdk.ValAddress(op.Addr))
 				}
